@@ -19,6 +19,9 @@ def build_setdrv():
     return build.build("set-san", srcs, None, build.SAN, std="c++17")
 
 
+_intern = __import__("sys").intern
+
+
 class Step:
     __slots__ = ("hid", "step", "op", "res", "conts", "cmp", "al", "ev", "te", "oracle")
 
@@ -43,17 +46,18 @@ def parse_transcript(text):
             if len(parts) != 9 or len(head) < 3 or not head[2].isdigit() or not parts[-1].startswith("ev=") or " te=" not in parts[-1]:
                 continue  # truncated by a crash
             s = Step()
-            s.hid, s.step = head[1], int(head[2])
-            s.op, s.res = parts[1], parts[2]
-            s.conts = parts[3:6]
+            s.hid, s.step = _intern(head[1]), int(head[2])
+            # (interned: the enumerations repeat the same operations, states and event strings millions of times)
+            s.op, s.res = _intern(parts[1]), _intern(parts[2])
+            s.conts = [_intern(x) for x in parts[3:6]]
             try:
                 s.cmp = int(parts[6][4:])
                 evte = parts[-1].split(" ")
                 s.te = int(evte[1][3:])
             except (ValueError, IndexError):
                 continue
-            s.al = parts[7][3:]
-            s.ev = evte[0][3:]
+            s.al = _intern(parts[7][3:])
+            s.ev = _intern(evte[0][3:])
             if s.hid in hists:
                 hists[s.hid].steps.append(s)
         elif line.startswith("ORACLE "):
